@@ -6,7 +6,8 @@
      font.transformPoints, contourPoint.translate / transform
      Face.getPointsForGlyph: all of it for a face without variations - simple, empty and composite glyphs, the four
        phantom points (hmtx and vmtx side bearings and advances), USE_MY_METRICS, point matching (anchors),
-       the maxCompositeNesting = 20 depth limit, out-of-range components, the final left-side-bearing shift
+       the maxCompositeNesting = 20 depth limit, the maxCompositeEdges = 1024 budget of visited glyphs (one counter
+       shared by the whole recursion), out-of-range components, the final left-side-bearing shift
      font.buildSegments / midPoint and font.extentsFromPoints on float32 coordinates
 
    Coordinates are float32 in the Go code; here they are EXACT binary32 values in the representation of Model/F32.v
@@ -171,53 +172,62 @@ Definition place_component (p : cpart) (all comp : list cpoint) : list cpoint :=
     map (fp_translate (f32_sub (cp_x a) (cp_x b)) (f32_sub (cp_y a) (cp_y b))) c2
   else c2.
 
-Section Components.
-  (* the recursive call f.getPointsForGlyph(item.GlyphIndex, currentDepth+1, &compPoints) *)
-  Variable rec_call : Z -> res (list cpoint).
+Definition max_composite_edges : Z := 1024.
 
-  Fixpoint components (parts : list cpart) (all phantoms : list cpoint) : res (list cpoint * list cpoint) :=
+Section Components.
+  (* the recursive call f.getPointsForGlyphRec(item.GlyphIndex, currentDepth+1, edgeCount, &compPoints):
+     glyph id, value of *edgeCount before the call -> points appended, value of *edgeCount after the call *)
+  Variable rec_call : Z -> Z -> res (list cpoint * Z).
+
+  Fixpoint components (parts : list cpart) (all phantoms : list cpoint) (ec : Z) : res (list cpoint * list cpoint * Z) :=
     match parts with
-    | [] => Ok (all, phantoms)
+    | [] => Ok (all, phantoms, ec)
     | p :: r =>
-        do comp <- rec_call (p_gid p);
-        if zlen comp <? 4 then components r all phantoms else
+        do cr <- rec_call (p_gid p) ec;
+        let '(comp, ec1) := cr in
+        if zlen comp <? 4 then components r all phantoms ec1 else
         let phantoms' := if part_use_my_metrics p then last4 comp else phantoms in
         let placed := place_component p all comp in
-        components r (all ++ drop_last4 placed) phantoms'
+        components r (all ++ drop_last4 placed) phantoms' ec1
     end.
 End Components.
 
-(* Face.getPointsForGlyph(gid, depth, &out) for out initially empty; the result is what is appended
-   ([] when the call returns at once).  fuel counts recursion levels. *)
-Fixpoint points_for_glyph (fuel : nat) (e : cenv) (gid depth : Z) : res (list cpoint) :=
+(* Face.getPointsForGlyphRec(gid, depth, edgeCount, &out) for out initially empty and *edgeCount = ec; the result is what
+   is appended ([] when the call returns at once: too deep, more than 1024 glyphs already visited, gid out of range) and
+   the new value of *edgeCount.  fuel counts recursion levels. *)
+Fixpoint points_for_glyph (fuel : nat) (e : cenv) (gid depth ec : Z) : res (list cpoint * Z) :=
   match fuel with
   | O => OutOfFuel
   | S k =>
-      if (max_composite_nesting <? depth) || (e_nglyf e <=? gid) then Ok [] else
+      if (max_composite_nesting <? depth) || (max_composite_edges <? ec) || (e_nglyf e <=? gid) then Ok ([], ec) else
+      let ec0 := ec + 1 in
       match lookup_rec (e_recs e) gid with
       | None => Err 21                                     (* record not supplied: outside the model's input *)
       | Some raw =>
           do g <- parse_glyph_full raw;
           let '(h, body) := g in
           let ph := phantoms_of e h gid in
-          do all <- match body with
-                    | BSimple end_pts pts =>
-                        Ok (map fp_of_int_point (contour_points_from 0 end_pts pts) ++ ph)
-                    | BNone => Ok ph
-                    | BComposite parts =>
-                        do r <- components (fun g' => points_for_glyph k e g' (depth + 1)) parts [] ph;
-                        Ok (fst r ++ snd r)
-                    end;
+          do r <- match body with
+                  | BSimple end_pts pts =>
+                      Ok (map fp_of_int_point (contour_points_from 0 end_pts pts) ++ ph, ec0)
+                  | BNone => Ok (ph, ec0)
+                  | BComposite parts =>
+                      do r <- components (fun g' c => points_for_glyph k e g' (depth + 1) c) parts [] ph ec0;
+                      let '(all', ph', ec') := r in
+                      Ok (all' ++ ph', ec')
+                  end;
+          let '(all, ec') := r in
           if depth =? 0 then
             let tx := f32_neg (cp_x (nth 0 (last4 all) fp_zero)) in
-            Ok (map (fp_translate tx 0) all)
-          else Ok all
+            Ok (map (fp_translate tx 0) all, ec')
+          else Ok (all, ec')
       end
   end.
 
 Definition comp_fuel : nat := 23.
-(* the top-level call *)
-Definition glyf_all_points (e : cenv) (gid : Z) : res (list cpoint) := points_for_glyph comp_fuel e gid 0.
+(* the top-level call Face.getPointsForGlyph(gid, 0, &out): the counter starts at 0 *)
+Definition glyf_all_points (e : cenv) (gid : Z) : res (list cpoint) :=
+  do r <- points_for_glyph comp_fuel e gid 0 0; Ok (fst r).
 
 (* ------------------------------------------------------------------------------------------------ *)
 (* buildSegments on float32 points: the automaton of Model/Outline.v with the float32 midpoint             *)
